@@ -27,6 +27,7 @@ let z_of_coqz (z : BinNums.coq_Z) : Z.t =
   | BinNums.Zneg p -> Z.neg (z_of_pos p)
 let coqz_of_int i = coqz_of_z (Z.of_int i)
 let int_of_coqz z = Z.to_int (z_of_coqz z)
+let rec int_of_nat (n : Datatypes.nat) : int = match n with Datatypes.O -> 0 | Datatypes.S m -> 1 + int_of_nat m
 let rec nat_of_int (i : int) : Datatypes.nat =
   if i <= 0 then Datatypes.O else Datatypes.S (nat_of_int (i - 1))
 
@@ -581,6 +582,54 @@ let sval_eq (v : Redis.sval) (j : Redis.sval) : bool =
   | Redis.SvZSet a, Redis.SvZSet b -> a = b
   | _, _ -> false
 
+(* ======================= conc mode: forced schedules on the thread model ============== *)
+let conc_main file =
+  let ic = open_in file in
+  (try while true do
+    let l = input_line ic in
+    (match split_ws l with
+     | "SCN" :: id :: valspec :: cmdspec :: schedspec :: _ ->
+         let split_on c s = if s = "-" then [] else String.split_on_char c s in
+         let vals = List.map (fun kv -> match String.split_on_char '=' kv with
+                                        | [k; v] -> (nat_of_int (int_of_string k), coqz_of_z (Z.of_string v))
+                                        | _ -> failwith "vals") (split_on ',' valspec) in
+         let cmds = List.map (fun c -> match String.split_on_char ':' c with
+                                       | ["PUSH"; k] -> Conc.Push (nat_of_int (int_of_string k))
+                                       | ["POP"; k] -> Conc.Pop (nat_of_int (int_of_string k))
+                                       | ["LEN"; k] -> Conc.Len (nat_of_int (int_of_string k))
+                                       | ["DEL"; k] -> Conc.Del (nat_of_int (int_of_string k))
+                                       | ["MOVE"; a; b] -> Conc.Move (nat_of_int (int_of_string a), nat_of_int (int_of_string b))
+                                       | _ -> failwith "cmd") (split_on ',' cmdspec) in
+         let sched = List.map (fun t -> nat_of_int (int_of_string t)) (split_on ',' schedspec) in
+         let keys = List.sort_uniq compare
+             (List.map (fun kv -> List.hd (String.split_on_char '=' kv)) (split_on ',' valspec)
+              @ List.concat_map (fun c -> List.tl (String.split_on_char ':' c)) (split_on ',' cmdspec)) in
+         (* two threads blocked on one record: which of them gets the lock is the Go runtime's choice *)
+         let ambiguous = ref false in
+         let s = List.fold_left (fun acc t ->
+             let acc' = Conc.grant t acc in
+             let ws = List.filter_map (fun (_, x) -> match x.Conc.t_pc with Conc.PWait (r, _) -> Some (int_of_nat r) | _ -> None) acc'.Conc.ths in
+             if List.length (List.sort_uniq compare ws) < List.length ws then ambiguous := true;
+             acc') (Conc.init_state vals cmds) sched in
+         let j l = if l = [] then "-" else String.concat "," l in
+         let vals_out = List.map (fun k -> match Conc.key_val (nat_of_int (int_of_string k)) s with
+                                           | Some v -> k ^ ":" ^ Z.to_string (z_of_coqz v)
+                                           | None -> k ^ ":-") keys in
+         let n = List.length cmds in
+         let replies = List.filter_map (fun t -> match Conc.reply_of (nat_of_int t) s with
+                                                 | Some r -> Some (string_of_int t ^ ":" ^ Z.to_string (z_of_coqz r))
+                                                 | None -> None) (List.init n (fun t -> t)) in
+         let waiting = List.map (fun t -> string_of_int (int_of_nat t)) (Conc.waiting s) in
+         let notdone = List.filter_map (fun (t, x) ->
+             match int_of_nat (Conc.pc_tag x.Conc.t_pc) with
+             | 0 -> Some (string_of_int (int_of_nat t) ^ ":start") | 1 -> Some (string_of_int (int_of_nat t) ^ ":hit")
+             | 3 -> Some (string_of_int (int_of_nat t) ^ ":locked") | 4 -> Some (string_of_int (int_of_nat t) ^ ":miss")
+             | 8 -> Some (string_of_int (int_of_nat t) ^ ":unlink") | _ -> None) s.Conc.ths in
+         Printf.printf "OUT %s vals=%s replies=%s waiting=%s notdone=%s%s\n" id (j vals_out) (j replies) (j waiting) (j notdone)
+           (if !ambiguous then " AMBIGUOUS" else "")
+     | _ -> ())
+  done with End_of_file -> ())
+
 let judge_main file =
   let ic = open_in file in
   let lines = ref [] in
@@ -826,6 +875,7 @@ let () =
   match Array.to_list Sys.argv with
   | _ :: "codec" :: file :: _ -> codec_main file
   | _ :: "trace" :: file :: _ -> trace_main file
+  | _ :: "conc" :: file :: _ -> conc_main file
   | _ :: "judge" :: file :: _ -> judge_main file
   | _ :: "reader" :: file :: _ -> reader_main file
   | _ -> prerr_endline "usage: mrun <mode> <file>"; exit 2
